@@ -136,7 +136,7 @@ Definition C04_full (emit : vopts -> nv -> vdoc) : Prop :=
    Proved: the VERIFIED CHECKER of one round trip - rt_check o n = true certifies that the document written for n
    under the options o is accepted by the reader and gives a netlist with the same top, and per written module the
    same ordered ports (name, direction, width, lower index), the same instances (definition, parameters,
-   attributes) and bit by bit the same connectivity. The run evaluates rt_check (extracted) on every netlist it
+   attributes), bit by bit the same connectivity and the same assignment instances (per pin the o and the i bit). The run evaluates rt_check (extracted) on every netlist it
    writes and compares the verdict with the real write/read cycle; `writable` (the class of the general statement)
    is evaluated too and must imply rt_check.
    Not proved: the general statement C04_emit_roundtrip_full (for every writable value the round trip succeeds). *)
@@ -157,7 +157,8 @@ Proof. exact same_conn_def_sound. Qed.
 Print Assumptions C04_same_conn_def_decided.
 
 (* a three-level design (VEmitRound.ex_src: 4-bit and 3-bit buses, a concatenation on a partially connected port,
-   an unconnected port, a part select, an instance parameter, attributes, a single-bit assign) read by the reader
+   an unconnected port, a part select, an instance parameter, attributes, a single-bit assign, the 3-bit assign
+   v[5:3] = w[-1:-3] between cables declared [6:2] and [0:-3]) read by the reader
    model, written by the writer model under two option sets (default; definition_list + defparam), read again *)
 From Coq Require Import String.
 Local Open Scope string_scope.
@@ -167,11 +168,12 @@ Example C04_emit_roundtrip_witness :
       writable ex_opts n = true /\ rt_check ex_opts n = true /\ rt_check ex_opts_dp n = true /\
       match emit ex_opts n with
       | WOk (m :: _) =>
-          nth_error (vm_body m) 9 =
+          nth_error (vm_body m) 12 =
             Some (IInst (S_ "sub") (S_ "u1") [(S_ "W", S_ "3")] []
                     (CNamed [(S_ "x", Some (DCat [DBit (S_ "a") 1; DId (S_ "b")]));
                              (S_ "z", Some (DAtom (DPart (S_ "t") 1 0))); (S_ "q", None)]))
-          /\ nth_error (vm_body m) 8 = Some (IAssign (DId (S_ "n1")) (DBit (S_ "a") 3))
+          /\ nth_error (vm_body m) 10 = Some (IAssign (DId (S_ "n1")) (DBit (S_ "a") 3))
+          /\ nth_error (vm_body m) 11 = Some (IAssign (DPart (S_ "v") 5 3) (DPart (S_ "w") (-1) (-3)))
       | _ => False
       end
   | Err _ => False
@@ -182,7 +184,7 @@ From Coq Require Import List.
 
 (* The statement at full strength for the modelled writer: on the decidable class `writable` (every port of a
    written module has a direction and lies pin by pin on the cable of its own name; emit succeeds - which excludes
-   multi-bit assigns, unnamed ports and names that need escaping) the written document is accepted and gives the
+   assignment instances that are not one slice per side, unnamed ports and names that need escaping) the written document is accepted and gives the
    same connectivity. NOT proved; on every run `writable o n = true -> rt_check o n = true` is evaluated on every
    netlist written, and rt_check's verdict is a proof for that netlist (C04_emit_roundtrip_checked). *)
 Definition C04_emit_roundtrip_full : Prop :=
@@ -251,3 +253,33 @@ Theorem C04_writable_header : forall o n dd m,
   Forall2 (fun p h => exists nm, np_label p = LName nm /\ h = HPort None None nm) (nd_ports dd) (vm_header m).
 Proof. exact writable_header. Qed.
 Print Assumptions C04_writable_header.
+
+(* Assignment instances (progress on C04_emit_roundtrip_full, assign clause). For EVERY list of pins - not only one
+   that comes from a reading, as in C04_assign_roundtrip - when _write_assignment writes (does not raise: the pins of
+   each side are one ascending run of one cable), the reader's assign on the two slices written gives exactly these
+   pins again, pin by pin; lifted to emit_assign: every `assign` item emit writes is read back as the (o wire, i
+   wire) pairs of the instance it was written for. With C04_assign_roundtrip: an instance the reader built is
+   always written (C04_emit_assign_inverse). *)
+Theorem C04_write_assign_reread : forall e pins co bo ci bi,
+  write_assign e pins = Some ((co, bo), (ci, bi)) ->
+  read_assign e (brk_atom co bo) (brk_atom ci bi) = Some pins.
+Proof. exact write_assign_reread. Qed.
+Print Assumptions C04_write_assign_reread.
+
+Theorem C04_emit_assign_reread : forall d prs lhs rhs,
+  emit_assign d prs = WOk (IAssign lhs rhs) ->
+  exists pins co bo ci bi,
+    assign_wires d prs = WOk pins /\ lhs = piece_atom d (co, bo) /\ rhs = piece_atom d (ci, bi) /\
+    read_assign (def_env d) (brk_atom co bo) (brk_atom ci bi) = Some pins.
+Proof. exact emit_assign_reread. Qed.
+Print Assumptions C04_emit_assign_reread.
+
+Theorem C04_emit_assign_inverse : forall d prs pins lhs rhs,
+  prs <> [] -> assign_wires d prs = WOk pins ->
+  atom_typed (def_env d) lhs -> atom_typed (def_env d) rhs ->
+  read_assign (def_env d) lhs rhs = Some pins ->
+  exists co bo ci bi,
+    emit_assign d prs = WOk (IAssign (piece_atom d (co, bo)) (piece_atom d (ci, bi))) /\
+    read_assign (def_env d) (brk_atom co bo) (brk_atom ci bi) = Some pins.
+Proof. exact emit_assign_inverse. Qed.
+Print Assumptions C04_emit_assign_inverse.
